@@ -232,9 +232,10 @@ func validateJWT(ih bittorrent.InfoHash, jwtBytes []byte, cfgIss, cfgAud string,
 		return errors.New("signed by unknown kid")
 	}
 
-	err = parsedJWS.Verify(publicKey, jc.SigningMethodRS256)
+	// Validate verifies the signature and the exp/nbf claims.
+	err = parsedJWT.Validate(publicKey, jc.SigningMethodRS256)
 	if err != nil {
-		log.Debug("failed to verify signature of JWT", log.Err(err))
+		log.Debug("failed to validate JWT", log.Err(err))
 		return err
 	}
 
